@@ -4,7 +4,8 @@ CFG = {
     "extra_props_modules": ["RpmVerif.Props.C04Readside"],
     "cleanup_globs": ["work/c04-mut-*.bin"],
     "props_module": "RpmVerif.Props.C04",
-    "required_theorems": ["RpmVerif.C04.split_partition", "RpmVerif.C04.split_bounded", "RpmVerif.C04.split_witness", "RpmVerif.C04.parsePackage_total", "RpmVerif.C04.parseMetadata_total", "RpmVerif.C04.decode_total",
+    "required_theorems": ["RpmVerif.C04.split_partition", "RpmVerif.C04.split_bounded", "RpmVerif.C04.split_witness", "RpmVerif.C04.split_declared", "RpmVerif.C04.parser_sees_only_slices", "RpmVerif.C04.parser_alloc_bound",
+                          "RpmVerif.C04.parser_calls_prefix", "RpmVerif.C04.parser_calls_faithful", "RpmVerif.C04.parse_depends_on_slices", "RpmVerif.C04.parsePackage_total", "RpmVerif.C04.parseMetadata_total", "RpmVerif.C04.decode_total",
                           "RpmVerif.C04.accepted_count_bounded", "RpmVerif.C04.accepted_sizes_bounded", "RpmVerif.C04.getFileEntries_total",
                           "RpmVerif.C04.readside_total", "RpmVerif.C04.readerNew_total", "RpmVerif.C04.iterate_total", "RpmVerif.C04.keyIds_total"],
     "trivial_branches": [],
@@ -15,6 +16,9 @@ CFG = {
             "terminated and unterminated strings) in either header; hostile digest / signature tags; every truncation of two builder-made packages; "
             "single-byte mutations (3 values per position; every 3rd position in quick); hostile cpio headers (name length 0/4096/4097/2^32−1/bad hex, "
             "sizes beyond the archive, stripped magic with indexes 0/1/2/2^31−1/2^32−1); seeded structure-aware damage; thorough adds mutated assets. "
+            "Signature blobs made of SEVERAL packets around real signatures of the 5 test keys (junk / garbage in a signature frame / second signature / "
+            "trailing packets or unframed bytes / every length format, ~240 blobs): the framing through the hook (pgpframes) and a package carrying the blob "
+            "under RSA / DSA / PGP / OPENPGP through the whole allocation-counted read side. "
             "Non-trivial: all; distinct = distinct request lines.",
     "exhaustive": False,
     "shards": {"quick": 8, "thorough": 16},
@@ -26,7 +30,7 @@ CFG = {
                   "explicit panic and proves it unreachable, incl. Lead::parse's unwrap), decoding never panics for any type/offset/count, every accepted entry's "
                   "count is bounded by the store length and index + store fit inside the input, and no accessor (incl. the unreachable!() arms of the list "
                   "accessors and get_file_entries) can panic. The tie and the parts outside the model (dependencies, allocator behaviour, cpio reader, signature "
-                  "code) are exercised by running the real read side on hostile inputs in a child process. Signature blobs: the OpenPGP packets handed to the pgp crate's parser are a partition of the blob, so no declared length exceeds it (split_partition, split_bounded, for every blob; the 104 MB witness of the old code is split_witness); model tied through the guarded hook pgp_split_packets. The correspondence also drains files() past errors (iterator must end) and limits every single allocation to 4 MiB + 16 * input length.",
+                  "code) are exercised by running the real read side on hostile inputs in a child process. Signature blobs: the OpenPGP packets handed to the pgp crate's parser are a partition of the blob, so no declared length exceeds it (split_partition, split_bounded, for every blob; the 104 MB witness of the old code is split_witness); each packet's own header declares exactly the packet's length (split_declared); for ANY packet parser, every byte string parse_signature hands to it is a non-empty contiguous slice of the blob whose declared length is its real length <= the blob (parser_sees_only_slices), all calls together are at most the blob (parser_alloc_bound), the calls are a prefix of the packet list ending at the first signature (parser_calls_prefix, parser_calls_faithful), and the result depends on the parser only through its answers on such slices (parse_depends_on_slices); model tied through the guarded hook pgp_split_packets and, for the first-signature rule, C02's sigpkts correspondence. The correspondence also drains files() past errors (iterator must end) and limits every single allocation to 4 MiB + 16 * input length.",
     "level_note": "Trusted: Lean kernel; model fidelity as exercised (parse ok/err class compared on every case); verify_digests / verify_signature / cpio totality "
                   "are proved in C03 / C02 / C07's models; dependencies are exercised only.",
 }
